@@ -670,6 +670,21 @@ func (e fixEvaluator) ViewThenResize(op0, opOut *rlwe.Ciphertext) {
 	*opOut.MetaData = *op0.MetaData
 }
 
+// RLKFIRST control: the key is looked up after the receiver has been written
+type fixRelinEvaluator struct {
+	*rlwe.Evaluator
+	r *ring.Ring
+}
+
+func (e fixRelinEvaluator) MulLate(op0, op1, opOut *rlwe.Ciphertext) (err error) {
+	e.r.MulCoeffsMontgomery(op0.Value[0], op1.Value[0], opOut.Value[0])
+	if _, err = e.CheckAndGetRelinearizationKey(); err != nil {
+		return err
+	}
+	*opOut.MetaData = *op0.MetaData
+	return
+}
+
 func rnsBad(r *ring.Ring, v uint64) (rns ring.RNSScalar) {
 	rns = make(ring.RNSScalar, r.Level()+1)
 	for i := range rns {
